@@ -28,8 +28,11 @@ def run(chk):
         Kc = {3: 4, 5: 6, 7: 8}[order]
         for f in F.funcs(cls, "calculateIntegralCost"):
             check_quadrature(chk, F, cls, f, Kc)
-        for f in [g for g in F.funcs(cls, "evaluate") if len(g["params"]) == 7]:
-            check_assembly(chk, F, cls, f, order, spl)
+        from ..effects import Effects
+        from . import evalctx
+        ctx = evalctx.context(F, Effects(F), cls)
+        for k_, f in enumerate([g for g in F.funcs(cls, "evaluate") if len(g["params"]) == 7]):
+            check_assembly(chk, F, cls, f, order, spl, ctx, k_ == 0)
     chk.floor("C07-R1", 60)
     chk.floor("C07-R2", 40)
     chk.floor("C07-R3", 60)
@@ -163,152 +166,33 @@ def check_liveness(chk, F, cls, f):
                ("the value written by '%s' is never read afterwards" % pp(dead[0])[:80]) if dead else "", construct="%s/live%s/%s" % (cls, inst, fld))
 
 
-def check_assembly(chk, F, cls, f, order, spl):
+def check_assembly(chk, F, cls, f, order, spl, ctx, first):
+    """R2 / R3 / R5 on the algebraic summary of evaluate() (evalsum / evalrules): what reaches the spline, what is
+    propagated, how the gradient struct is completed and what is written to grad_out - per flag assignment and per
+    sign of the energy weight - instead of the order and spelling of evaluate()'s statements."""
+    from .. import evalrules
     chk.saw(f)
     check_liveness(chk, F, cls, f)
     inst = f["full"].split("evaluate")[1][:60]
-    void = "VoidWaypointsCost" in f["full"]
-    sc = Scope(f)
-    body = f["body"]["body"]
-    for n in walk(f["body"]):
-        if n.get("k") == "decl" and n.get("bind") == "alias":
-            sc.bind_opaque(n["id"], "WS")
-        elif n.get("k") == "decl" and n["ty"].get("c") in ("int",) and n.get("init") is not None:
-            sc.bind_local(n)
-    # flatten top-level statements (if-constexpr taken branches are inlined, runtime ifs keep their guard)
-    flat = []
-
-    def rec(s, guard):
-        k = s.get("k")
-        if k == "block":
-            for x in s["body"]:
-                rec(x, guard)
-        elif k == "if":
-            if s.get("constexpr") and s.get("taken"):
-                br = s["then"] if s["taken"] == "then" else s.get("else")
-                if br is not None:
-                    rec(br, guard)
-            else:
-                g2 = canon(s["cond"], sc)
-                rec(s["then"], guard + [g2])
-                if s.get("else") is not None:
-                    rec(s["else"], guard + ["!" + g2])
-        else:
-            flat.append((s, tuple(guard)))
-    for s in body:
-        rec(s, [])
-
-    def txt(s):
-        if s.get("k") == "expr":
-            try:
-                return canon(s["e"], sc)
-            except Exception:
-                return pp(s["e"])
-        if s.get("k") == "decl" and s.get("init") is not None:
-            try:
-                return "%" + s["name"] + " = " + canon(s["init"], sc)
-            except Exception:
-                return "%" + s["name"]
-        return s.get("k")
-    texts = [(txt(s), g) for s, g in flat]
-
-    def index_of(pred):
-        idx = [k for k, (t, g) in enumerate(texts) if isinstance(t, str) and pred(t)]
-        return idx
-    marks = {
-        "decode durations": index_of(lambda t: False),
-        "spline update": index_of(lambda t: t.startswith("WS.spline.update(")),
-        "time cost": index_of(lambda t: "$p2[WS.cache_times" in t),
-        "add time-cost gradient": index_of(lambda t: t.startswith("(WS.cache_gdT += WS.user_gdT_buffer")),
-        "integral": index_of(lambda t: t.startswith("this.calculateIntegralCost(")),
-        "propagate": index_of(lambda t: t.startswith("WS.spline.propagateGrad(")),
-        "energy gradient": index_of(lambda t: t.startswith("WS.spline.getEnergyGrad(")),
-    }
-    fors = [k for k, (s, g) in enumerate(flat) if s.get("k") == "for"]
-    rfors = [k for k, (s, g) in enumerate(flat) if s.get("k") == "rfor"]
-    trav = [k for k, (t, g) in enumerate(texts) if isinstance(t, str) and "[lambda" in t or (flat[k][0].get("k") == "expr" and flat[k][0]["e"].get("k") == "call" and callee(flat[k][0]["e"]).get("lid"))]
+    c2 = dict(ctx, void="VoidWaypointsCost" in f["full"])
+    V, npaths = evalrules.analyse_cached(F, cls, f, c2, full=(first or chk.tier == "thorough"))
     where = loc(f)
-    def one(name):
-        return len(marks[name]) == 1
-    # this rule reads evaluate() as a sequence of recognisable phases; when the phases cannot be found (a step moved into
-    # a helper, a loop split or merged) the rule has no opinion: analysis-broken, not a violation
-    missing = [nm for nm in ("spline update", "time cost", "integral", "propagate", "energy gradient") if len(marks[nm]) == 0]
-    if missing or len(fors) != 2 or len(rfors) != 2:
-        raise Broken("%s%s: the assembly phases of evaluate() are not recognisable (missing %s; %d index loops, %d layout loops at top level)" % (cls, inst, missing, len(fors), len(rfors)))
-    for nm in ("spline update", "time cost", "integral", "propagate", "energy gradient"):
-        chk.ob("C07-R2", "%s%s step '%s' occurs exactly once" % (cls, inst, nm), one(nm), where, str(marks[nm]), construct="%s/order%s/%s" % (cls, inst, nm))
-    if not all(one(nm) for nm in ("spline update", "time cost", "integral", "propagate", "energy gradient")):
-        return
-    upd, tc, integ, prop, eg = (marks[nm][0] for nm in ("spline update", "time cost", "integral", "propagate", "energy gradient"))
-    dec_t, back_t = fors
-    dec_s, back_s = rfors
-    seq = [("decode durations", dec_t), ("decode waypoints", dec_s), ("spline update", upd), ("time cost", tc), ("integral cost and its dC/dT", integ), ("propagate through the spline", prop),
-           ("energy gradient", eg), ("time back-substitution", back_t), ("spatial back-substitution", back_s)]
-    for (a, ia), (b, ib) in zip(seq, seq[1:]):
-        chk.ob("C07-R2", "%s%s '%s' precedes '%s'" % (cls, inst, a, b), ia < ib, where, "%d < %d" % (ia, ib), construct="%s/order%s/%s<%s" % (cls, inst, a[:12], b[:12]))
-    # decode of the boundary blocks happens before the update; their gradient write-back after the energy terms
-    calls_l = [k for k, (s, g) in enumerate(flat) if s.get("k") == "expr" and s["e"].get("k") == "call" and callee(s["e"]).get("lid")]
-    if len(calls_l) != 2:
-        raise Broken("%s%s: the two boundary-block traversals of evaluate() are not recognisable at top level (%d found)" % (cls, inst, len(calls_l)))
-    chk.ob("C07-R2", "%s%s boundary blocks are decoded before the spline update and written back after all gradient terms" % (cls, inst),
-           len(calls_l) == 2 and calls_l[0] < upd and calls_l[1] > eg and calls_l[1] > back_s, where, str(calls_l), construct="%s/order%s/blocks" % (cls, inst))
-    # arguments of the three central calls
-    u = flat[upd][0]["e"]
-    ua = [canon(a, sc) for a in u["args"]]
-    # the boundary state passed is the local copy that the decode traversal filled (C09-R2/R4), not the reference
-    okargs = ua[:3] == ["WS.cache_times", "WS.cache_waypoints", "this.start_time_"] and len(ua) == 4 and ua[3].startswith("%")
-    chk.ob("C07-R2", "%s%s the workspace spline is updated from the decoded durations, waypoints, start time and boundary state" % (cls, inst), okargs, loc(f, u), str([canon(a, sc) for a in u["args"]]),
-           construct="%s/order%s/update-args" % (cls, inst))
-    ic = flat[integ][0]["e"]
-    a = [canon(x, sc) for x in ic["args"][:4]]
-    chk.ob("C07-R2", "%s%s the quadrature accumulates into the workspace's dC / dT buffers and the returned cost" % (cls, inst), a[:3] == ["WS", "WS.cache_gdC", "WS.cache_gdT"], loc(f, ic), str(a),
-           construct="%s/order%s/integral-args" % (cls, inst))
-    pc = flat[prop][0]["e"]
-    a = [canon(x, sc) for x in pc["args"]]
-    chk.ob("C07-R2", "%s%s propagation maps (dC, dT) to the gradient struct" % (cls, inst), a == ["WS.cache_gdC", "WS.cache_gdT", "WS.grads"], loc(f, pc), str(a), construct="%s/order%s/propagate-args" % (cls, inst))
-    # buffers zeroed before use
-    for nm, before in (("WS.user_gdT_buffer.setZero()", tc), ("WS.cache_gdT.setZero()", tc), ("WS.cache_gdC.setZero()", integ)):
-        idx = [k for k, (t, g) in enumerate(texts) if t == nm]
-        chk.ob("C07-R5", "%s%s %s before it is accumulated into" % (cls, inst, nm), len(idx) == 1 and idx[0] < before, where, str(idx), construct="%s/zero%s/%s" % (cls, inst, nm))
-    z = [k for k, (t, g) in enumerate(texts) if isinstance(t, str) and t.startswith("$p1.setZero(")]
-    okz = len(z) == 1 and texts[z[0]][0] == "$p1.setZero($p0.size())" and z[0] < back_t
-    chk.ob("C07-R5", "%s%s grad_out is zeroed to the size of x before any slot is written" % (cls, inst), okz, where, str([texts[k][0] for k in z]), construct="%s/zero%s/grad_out" % (cls, inst))
-    # ---- R3 energy accumulation -------------------------------------------------------------------------
-    rho = "this.rho_energy_"
-    guard_e = ("(%s > 0)" % rho,)
-    guard_e2 = ("(0 < %s)" % rho,)
-    fields = ["times", "inner_points", "start.p", "start.v", "end.p", "end.v"]
-    if order >= 5:
-        fields += ["start.a", "end.a"]
-    if order >= 7:
-        fields += ["start.j", "end.j"]
-    for fld in fields:
-        wants_e = ("(WS.grads.%s += (%s * WS.energy_grads.%s))" % (fld, rho, fld), "(WS.grads.%s += (WS.energy_grads.%s * %s))" % (fld, fld, rho))
-        idx = [k for k, (t, g) in enumerate(texts) if t in wants_e and (g[:1] in (guard_e, guard_e2))]
-        ok = len(idx) == 1 and eg < idx[0] < back_t
-        if fld == "inner_points" and ok:
-            ok = texts[idx[0]][1][1:] in (("(%n_inner > 0)",), ("(0 < %n_inner)",)) or len(texts[idx[0]][1]) == 2
-        chk.ob("C07-R3", "%s%s energy gradient of %s is added with weight rho (only when rho > 0)" % (cls, inst, fld), ok, where, str(idx), construct="%s/energy%s/%s" % (cls, inst, fld))
-    extra = [t for t, g in texts if isinstance(t, str) and "WS.energy_grads." in t and not any(
-        t in ("(WS.grads.%s += (%s * WS.energy_grads.%s))" % (fl, rho, fl), "(WS.grads.%s += (WS.energy_grads.%s * %s))" % (fl, fl, rho)) for fl in fields)]
-    chk.ob("C07-R3", "%s%s no other use of the energy gradient" % (cls, inst), not extra, where, str(extra), construct="%s/energy%s/extra" % (cls, inst))
-    egc = flat[eg][0]["e"]
-    chk.ob("C07-R3", "%s%s the energy gradient is the workspace spline's, written to the energy-gradient struct" % (cls, inst), [canon(x, sc) for x in egc["args"]] == ["WS.energy_grads"], loc(f, egc), "",
-           construct="%s/energy%s/source" % (cls, inst))
-    # waypoint-cost rows
-    if not void:
-        N = "this.num_segments_"
-        wants = {"start.p": "(WS.grads.start.p += WS.discrete_grad_q_buffer.row(0).transpose())",
-                 "end.p": "(WS.grads.end.p += WS.discrete_grad_q_buffer.row(%s).transpose())" % N}
-        for fld, w in wants.items():
-            idx = [k for k, (t, g) in enumerate(texts) if t == w]
-            chk.ob("C07-R3", "%s%s waypoint-cost gradient row of the %s point is added" % (cls, inst, fld[:-2]), len(idx) == 1 and prop < idx[0] < back_t, where, str(idx), construct="%s/wp%s/%s" % (cls, inst, fld))
-        inner = [k for k, (t, g) in enumerate(texts) if isinstance(t, str) and t.startswith("(WS.grads.inner_points += WS.discrete_grad_q_buffer.block(1,0,")]
-        oki = len(inner) == 1 and prop < inner[0] < back_t
-        if oki:
-            t = texts[inner[0]][0]
-            oki = "max(0,(%s - 1))" % N in t.replace(" ", "").replace("(this.num_segments_-1)", "(this.num_segments_ - 1)") or "n_inner" in t or "(this.num_segments_ - 1)" in t
-        chk.ob("C07-R3", "%s%s waypoint-cost gradient rows 1..N-1 are added to the inner-point gradient" % (cls, inst), oki, where, texts[inner[0]][0] if inner else "", construct="%s/wp%s/inner" % (cls, inst))
-        zb = [k for k, (t, g) in enumerate(texts) if t == "WS.discrete_grad_q_buffer.setZero()"]
-        wc = [k for k, (t, g) in enumerate(texts) if isinstance(t, str) and "$p3[WS.cache_waypoints,WS.discrete_grad_q_buffer]" in t]
-        chk.ob("C07-R3", "%s%s waypoint-cost gradient buffer is zeroed before the functor fills it" % (cls, inst), len(zb) == 1 and len(wc) == 1 and zb[0] < wc[0], where, "", construct="%s/wp%s/zero" % (cls, inst))
+    R = [("C07-R2", "decode-times", "the spline is built from durations toTime(x_i)"),
+         ("C07-R2", "decode-waypoints", "the spline is built from the waypoints decoded from x (reference elsewhere)"),
+         ("C07-R2", "decode-bc", "the spline is built from the boundary state decoded from x (reference elsewhere)"),
+         ("C07-R2", "decode-before-update", "the spline is updated after the whole decision vector has been decoded, and the decoded inputs are not touched afterwards"),
+         ("C07-R2", "update-once", "the workspace spline is updated exactly once per evaluation"),
+         ("C07-R2", "propagate-inputs", "what is propagated through the spline: dC = quadrature's, dT = time functor's + quadrature's, both zeroed first and complete before propagation"),
+         ("C07-R2", "time-buffer", "the time functor sees the decoded durations and a zeroed gradient buffer"),
+         ("C07-R3", "G-fields", "every boundary gradient = propagated + rho * energy gradient (rho > 0) + waypoint-cost row (end points)"),
+         ("C07-R3", "G-times", "duration gradient = propagated + rho * energy gradient (rho > 0), nothing else"),
+         ("C07-R3", "G-inner", "inner-point gradient = propagated + waypoint-cost rows 1..N-1 + rho * energy gradient (rho > 0), nothing else"),
+         ("C07-R3", "wp-buffer", "the waypoint functor sees the decoded waypoints and a zeroed gradient buffer, read only after the call"),
+         ("C07-R3", "energy-source", "energy and energy gradient come from the workspace spline, once, when the weight is positive"),
+         ("C07-R4", "encode-times", "time slots: backward(x_i, T_i, completed dCost/dT_i)"),
+         ("C07-R4", "encode-spatial", "spatial slots: backwardGrad(x slice, completed gradient of that waypoint, its index)"),
+         ("C07-R4", "encode-blocks", "derivative blocks: completed gradient of the flagged boundary derivative, canonical order"),
+         ("C07-R5", "encode-zero", "grad_out is sized to x and zeroed before any slot is written")]
+    for rule, rid, text in R:
+        okv, detv = V.v[rid]
+        chk.ob(rule, "%s%s %s" % (cls, inst, text), okv, where, detv or "%d paths" % npaths, construct="%s/asm%s/%s" % (cls, inst, rid))
